@@ -91,6 +91,19 @@ def make_rhs(hname, kind):
     return dof, f, jac, energy, mask, Jm, quad
 
 
+def mask_as(mask, kind):
+    """what the caller hands over as the kick mask: a bool array, or any array / list whose truthy entries mark the momenta"""
+    if kind == "int2":
+        return np.asarray(mask).astype(np.int64) * 2        # flag bits
+    if kind == "neg":
+        return -np.asarray(mask).astype(np.int8)             # -1 markers
+    if kind == "list":
+        return [int(v) for v in mask]
+    if kind == "float":
+        return np.asarray(mask).astype(np.float32)
+    return mask
+
+
 def one_step(M, f, jac, y, h, dtype, mask, via, implicit, cache=None):
     """one real step from state y.  With a cache dict the SAME integrator object serves every evaluation of the case
     (the natural way to evaluate a one-step map at several states); without, a fresh object is built per evaluation."""
@@ -136,6 +149,7 @@ def map_case(case):
     implicit = getattr(M, "tableau_final", None) is not None
     dtype = np.float64 if implicit else LD
     dof, f, jac, energy, mask, Jm, quad = make_rhs(case["H"], case["layout"])
+    mask = mask_as(mask, case.get("mask_kind"))
     h = case["h"]
     n = 2 * dof
     sts = states(dof, case["quick"])
@@ -180,7 +194,7 @@ def map_case(case):
             r.v("C10/symplectic/%s" % case["method"], "M^T J M = J for the one-step map", dict(case, y0=y0.astype(float)),
                 observed=dict(defect=defect, tol=tol), expected="<= tol")
             break
-    r.out(("map", case["method"], case["H"], case["layout"], case["via"], h > 0, bool(case.get("reuse"))))
+    r.out(("map", case["method"], case["H"], case["layout"], case["via"], h > 0, bool(case.get("reuse")), case.get("mask_kind")))
     if case.get("sample"):
         r.samples.append(dict(section="map", case={k: v for k, v in case.items() if k != "sample"}, states=len(sts), worst_ratio=worst))
     return r
@@ -196,6 +210,7 @@ def reverse_case(case):
     implicit = getattr(M, "tableau_final", None) is not None
     dtype = np.float64 if implicit else LD
     dof, f, jac, energy, mask, Jm, quad = make_rhs(case["H"], case["layout"])
+    mask = mask_as(mask, case.get("mask_kind"))
     h = case["h"]
     cache = {} if case.get("reuse") else None
     for y0 in states(dof, True):
@@ -365,6 +380,17 @@ def run(ctx):
         for H in ("harmonic", "pendulum") + (() if ctx.quick else ("henon",)):
             for h in (0.1, -0.1) + (() if ctx.quick else (0.25,)):
                 cases.append(dict(section="energy", method=M.__name__, H=H, h=h, steps=1024 if ctx.quick and implicit else 4096))
+    # the kick mask handed over as something else than a bool array (flag bits, -1 markers, a list, a float array): its truthy entries are the momenta
+    for M in ms:
+        if getattr(M, "tableau_final", None) is not None:
+            continue
+        for H, lay in (("harmonic", "swapped"), ("pendulum", "swapped"), ("henon", "interleaved"), ("coupled", "interleaved")):
+            for via in ("ctor", "system", "system-kick-first"):
+                for kind in ("int2", "neg", "list", "float"):
+                    for h in (0.5, -0.1):
+                        cases.append(dict(section="map", method=M.__name__, H=H, layout=lay, via=via, h=h, quick=True, mask_kind=kind))
+                        if M.__name__ in SYMMETRIC and via == "ctor":
+                            cases.append(dict(section="reverse", method=M.__name__, H=H, layout=lay, via=via, h=h, mask_kind=kind))
     for M in ms:
         if getattr(M, "tableau_final", None) is None:
             continue
